@@ -160,6 +160,7 @@ pub open spec fn tlv_list_items(l: Seq<(u8, Seq<u8>)>) -> Seq<TlvItem> {
 // [props: C07 C13]
 /// walking the concatenated encodings of a TLV list (placed after any prefix) yields exactly
 /// those TLVs, in order, and nothing else
+#[verifier::rlimit(60)]
 pub proof fn lemma_walk_of_encoding(pre: Seq<u8>, l: Seq<(u8, Seq<u8>)>)
     requires tlv_list_ok(l)
     ensures tlv_walk(pre + tlv_list_enc(l), pre.len() as int) =~= tlv_list_items(l)
